@@ -35,7 +35,7 @@ for d in /verif/seeded/*/; do
   prop=${name%%-*}
   run seeded "$name" "$d/patch.diff" 1 "$prop"
 done
-declare -A touch=( [01]="C01 C08" [02]="C06" [03]="C02 C05" [04]="C02 C06" [05]="C14 C06" [06]="C10" [07]="C17" [08]="C04" )
+declare -A touch=( [01]="C01 C08" [02]="C06" [03]="C02 C05" [04]="C02 C06" [05]="C14 C06" [06]="C10" [07]="C17" [08]="C04" [09]="C03" [10]="C07" [11]="C10" [12]="C14 C06" [13]="C04 C14" [14]="C13 C08" )
 for f in /verif/benign/*.diff; do
   n=$(basename "$f" .diff); [[ -n "$filter" && "benign-$n" != *"$filter"* ]] && continue
   run benign "$n" "$f" 0 ${touch[$n]}
